@@ -264,7 +264,8 @@ func TestC22(t *testing.T) {
 			}
 			for _, src := range [][]byte{enc.Buf, want} {
 				var d proto.MessageContainer
-				buf := &bin.Buffer{Buf: append([]byte(nil), src...)}
+				in := append([]byte(nil), src...)
+				buf := &bin.Buffer{Buf: in}
 				var err error
 				alloc := measured(func() { err = d.Decode(buf) })
 				if err != nil {
@@ -272,6 +273,11 @@ func TestC22(t *testing.T) {
 				}
 				if buf.Len() != 0 {
 					t.Fatalf("container: %d bytes left after decode", buf.Len())
+				}
+				// what was decoded is a value of its own: the receive buffer is used for
+				// the next frame while the decoded messages are still being handled
+				for i := range in {
+					in[i] = 0xff
 				}
 				if diff := sameMsgs(d.Messages, msgs); diff != "" {
 					t.Fatalf("container round-trip: %s", diff)
@@ -299,10 +305,16 @@ func TestC22(t *testing.T) {
 			// decode into a fresh and into a re-used receiver (the engine re-uses buffers)
 			reused := proto.Result{Result: []byte("stale content that must disappear")}
 			for _, d := range []*proto.Result{{}, &reused} {
-				buf := &bin.Buffer{Buf: append([]byte(nil), want...)}
+				in := append([]byte(nil), want...)
+				buf := &bin.Buffer{Buf: in}
 				if err := d.Decode(buf); err != nil {
 					t.Fatalf("result (body %d): Decode: %v", len(body), err)
 				}
+				left := buf.Len()
+				for i := range in {
+					in[i] = 0xff // the source buffer is reused; the decoded value must not change
+				}
+				buf = &bin.Buffer{Buf: in[len(in)-left:]}
 				if d.RequestMessageID != id || !bytes.Equal(d.Result, body) || buf.Len() != 0 {
 					t.Fatalf("result round-trip: id %d want %d, body %d bytes want %d, left %d", d.RequestMessageID, id, len(d.Result), len(body), buf.Len())
 				}
@@ -326,12 +338,18 @@ func TestC22(t *testing.T) {
 			trail := pbt.DrawBytes(t, "trail", 4*rapid.IntRange(0, 2).Draw(t, "trailWords"))
 			reused := proto.UnencryptedMessage{MessageData: []byte("stale content that must disappear")}
 			for _, d := range []*proto.UnencryptedMessage{{}, &reused} {
-				buf := &bin.Buffer{Buf: append(append([]byte(nil), want...), trail...)}
+				in := append(append([]byte(nil), want...), trail...)
+				buf := &bin.Buffer{Buf: in}
 				var err error
 				alloc := measured(func() { err = d.Decode(buf) })
 				if err != nil {
 					t.Fatalf("unencrypted (data %d): Decode: %v", len(data), err)
 				}
+				left := buf.Len()
+				for i := range in {
+					in[i] = 0xff // the source buffer is reused; the decoded value must not change
+				}
+				buf = &bin.Buffer{Buf: in[len(in)-left:]}
 				if d.MessageID != id || !bytes.Equal(d.MessageData, data) || buf.Len() != len(trail) {
 					t.Fatalf("unencrypted round-trip: id %d want %d, data %d bytes want %d, left %d want %d",
 						d.MessageID, id, len(d.MessageData), len(data), buf.Len(), len(trail))
